@@ -965,6 +965,39 @@ def sc_c19_nomapper(name, seed, mtu):
     return Scenario(name, s.lines)
 
 
+def sc_c19_faulty(name, seed, mtu):
+    """histories in which the platform refuses allocations and transmits now and then: what a fault interrupts is
+    released all the same, and a later (fault-free) Reset finds the constant record only"""
+    rng = random.Random(seed)
+    s = new_script(mtu=mtu)
+    s.rx(1, reset(M1))
+    h = Hist(rng, own=OWN, mtu=mtu, wild=0.1)
+    for i in range(120):
+        f = h.one()
+        faulty = rng.random() < 0.3
+        if faulty:
+            k = rng.random()
+            if len(f) >= 34 and f[17] == OP_EMIT and f[15] == 0 and k < 0.7:
+                # a multi-frame reaction: refuse exactly one of its transmits, each position in turn (the last is the ACK)
+                n = min((f[32] << 8) | f[33], 12)
+                s.fault(send=1 << rng.randrange(0, n + 1))
+            elif k < 0.4:
+                s.fault(alloc=rng.randrange(1, 5), sticky=rng.choice([0, 0, 1]))
+            elif k < 0.8:
+                s.fault(send=rng.choice([1, 2, 4, 8, 3, 0xFFFF, 1 << rng.randrange(0, 12)]))
+            else:
+                s.fault(send="all")
+        s.rx(1, f[:mtu])
+        if faulty:
+            s.clear()
+        if i % 30 == 29:
+            s.rx(1, reset(M1))
+            h.mapper = None
+    s.rx(1, reset(M1))
+    s.rx(1, reset(M1))
+    return Scenario(name, s.lines)
+
+
 def campaign_c19(seed, tier):
     rng = random.Random(seed)
     scs = []
@@ -977,6 +1010,8 @@ def campaign_c19(seed, tier):
         scs.append(sc_c19_flood("c19-flood-%d" % mtu, rng.randrange(1 << 30), mtu, n))
     for i in range(13 if tier == "quick" else 300):
         scs.append(sc_c19_idem("c19-idem-%d" % i, rng.randrange(1 << 30), MTUS[i % 3]))
+    for i in range(6 if tier == "quick" else 200):
+        scs.append(sc_c19_faulty("c19-faulty-%d" % i, rng.randrange(1 << 30), [576, 1500, 590][i % 3]))
     for i in range(6 if tier == "quick" else 120):
         scs.append(sc_multihome("c19-multihome-%d" % i, rng.randrange(1 << 30)))
     for i in range(3 if tier == "quick" else 40):
